@@ -54,6 +54,53 @@ pub fn run(ctx: &Ctx) -> Report {
     let n_big = big.len() as u64;
     let mut acc2 = sweep(cases.into_par_iter(), judge);
     acc2.nontrivial += n_big;
+    // messages that carry a message (a relayed STUN message in a DATA-like attribute, with and
+    // without integrity / FINGERPRINT) or values that read as a sealing attribute / STUN header:
+    // a prefix may end exactly on an embedded FINGERPRINT, inside an embedded MESSAGE-INTEGRITY ...
+    let mut nested: Vec<Vec<u8>> = Vec::new();
+    {
+        let mut inners: Vec<Vec<u8>> = Vec::new();
+        let mut m = wire::encode_header(0, 1, 0x0A0B_0C0D_0E0F_1011_1213_1415, 0);
+        inners.push(m.clone());
+        wire::append_raw(&mut m, 0x0006, b"user");
+        let mut with_fp = m.clone();
+        wire::append_fp(&mut with_fp);
+        inners.push(with_fp);
+        let mut with_mi = m.clone();
+        wire::append_mi(&mut with_mi, b"key");
+        inners.push(with_mi.clone());
+        wire::append_fp(&mut with_mi);
+        inners.push(with_mi);
+        let mut with_256 = m.clone();
+        wire::append_mi256(&mut with_256, b"key", 32);
+        wire::append_fp(&mut with_256);
+        inners.push(with_256);
+        inners.push(vec![0x80, 0x28, 0x00, 0x04, 1, 2, 3, 4]);
+        inners.push(vec![0xDE, 0xAD, 0xBE, 0xEF, 0x80, 0x28, 0x00, 0x04, 1, 2, 3, 4]);
+        inners.push([&[0x00u8, 0x08, 0x00, 0x14][..], &[7u8; 20][..]].concat());
+        inners.push([&[0x00u8, 0x1C, 0x00, 0x20][..], &[7u8; 32][..]].concat());
+        for inner in &inners {
+            for lead in [0usize, 1, 2, 3] {
+                for (after, outer_fp) in [(false, false), (true, false), (true, true), (false, true)] {
+                    let mut v = vec![0x5Au8; lead];
+                    v.extend_from_slice(inner);
+                    let mut b = wire::encode_header(1, 0x006, 0x2021_2223_2425_2627_2829_2A2B, 0);
+                    wire::append_raw(&mut b, 0x0013, &v);
+                    if after {
+                        wire::append_raw(&mut b, 0x0012, &[0, 1, 0x21, 0x12, 0x21 ^ 10, 0x12, 0xA4, 0x43]);
+                    }
+                    if outer_fp {
+                        wire::append_fp(&mut b);
+                    }
+                    nested.push(b);
+                }
+            }
+        }
+    }
+    let n_nested = nested.len() as u64;
+    let nested_cases: Vec<Case> = nested.iter().flat_map(|b| (0..b.len()).map(move |k| Case::new("prefix", b.clone()).args(&[k as i64]))).collect();
+    let mut acc_nested = sweep(nested_cases.into_par_iter(), judge);
+    acc_nested.nontrivial += n_nested;
     // messages around the 16-bit length boundary: cut points 0..=300, the last 300, every power
     // of two +-1 and every 251st in between (the parser answers a short prefix from the header alone)
     let mut huge: Vec<Vec<u8>> = Vec::new();
@@ -144,11 +191,11 @@ pub fn run(ctx: &Ctx) -> Report {
         }
     }
     let acc3 = acc3.merge(sweep(hcases.into_par_iter(), judge));
-    let acc = acc1.merge(acc2).merge(acc3);
+    let acc = acc1.merge(acc2).merge(acc3).merge(acc_nested);
     Report {
         acc,
         exhaustive: true,
-        rule: "every well-formed message of the skeleton space (x3 header variants) and 10 builder-made messages with attribute lengths up to 763 x every cut point 0..len; 5 messages of 4 KiB .. 65 552 bytes x cut points {0..=300, last 300, powers of two +-1, every 251st}; header decoder on all 65536 type fields x 7 length fields x cookie ok/off, all 65536 length fields x 3 types, every cookie bit, walking-one / walking-zero / byte-lane transaction ids; distinct_nontrivial counts the well-formed messages".into(),
+        rule: "every well-formed message of the skeleton space (x3 header variants), 144 messages carrying a relayed STUN message or a value that reads as a sealing attribute at four alignments, and 10 builder-made messages with attribute lengths up to 763 x every cut point 0..len; 5 messages of 4 KiB .. 65 552 bytes x cut points {0..=300, last 300, powers of two +-1, every 251st}; header decoder on all 65536 type fields x 7 length fields x cookie ok/off, all 65536 length fields x 3 types, every cookie bit, walking-one / walking-zero / byte-lane transaction ids; distinct_nontrivial counts the well-formed messages".into(),
         bounds: json!({"skeletons": sk.len(), "cut_points": "all", "header_space": 65536 * 14}),
         assumptions: vec![],
         ..Default::default()
